@@ -1201,19 +1201,24 @@ QXmppTask<IqResult> OutgoingIqManager::start(const QString &id, const QString &t
 void OutgoingIqManager::finish(const QString &id, IqResult &&result)
 {
     if (auto itr = m_requests.find(id); itr != m_requests.end()) {
-        itr->second.interface.finish(std::move(result));
+        // remove the request first: the continuation may issue or cancel requests itself
+        auto state = std::move(itr->second);
         m_requests.erase(itr);
+        state.interface.finish(std::move(result));
     }
 }
 
 void OutgoingIqManager::cancelAll()
 {
-    for (auto &[id, state] : m_requests) {
+    // continuations may issue new requests (or cancel again): work on a detached table so that
+    // nothing is iterated while it changes and no request issued meanwhile is dropped silently
+    auto requests = std::move(m_requests);
+    m_requests.clear();
+    for (auto &[id, state] : requests) {
         state.interface.finish(QXmppError {
             u"IQ has been cancelled."_s,
             QXmpp::SendError::Disconnected });
     }
-    m_requests.clear();
 }
 
 void OutgoingIqManager::onSessionOpened(const SessionBegin &session)
@@ -1250,7 +1255,6 @@ bool OutgoingIqManager::handleStanza(const QDomElement &stanza)
         return false;
     }
 
-    auto &promise = itr->second.interface;
     const auto &expectedFrom = itr->second.jid;
 
     // Check that the sender of the response matches the recipient of the request.
@@ -1263,6 +1267,10 @@ bool OutgoingIqManager::handleStanza(const QDomElement &stanza)
                     .arg(id, from, expectedFrom));
         return false;
     }
+
+    // remove the request before completing it: the continuation may issue or cancel requests itself
+    auto promise = std::move(itr->second.interface);
+    m_requests.erase(itr);
 
     // report IQ errors as QXmppError (this makes it impossible to parse the full error IQ,
     // but that is okay for now)
@@ -1282,7 +1290,6 @@ bool OutgoingIqManager::handleStanza(const QDomElement &stanza)
         promise.finish(stanza);
     }
 
-    m_requests.erase(itr);
     return true;
 }
 
